@@ -95,6 +95,9 @@ class SymMode:
     def assume(self, c):
         self.ctx.assume(c)
 
+    def fp(self, name):
+        return self.ctx.fp(name)
+
     def carray(self, name, shape, dtype=np.complex128):
         a = np.empty(shape, dtype=object)
         for ix in np.ndindex(*shape):
@@ -159,6 +162,11 @@ class ConcMode:
 
     def int(self, name, lo=None, hi=None):
         v = int(self.values[name])
+        self.env[name] = v
+        return v
+
+    def fp(self, name):
+        v = float(self.values[name])
         self.env[name] = v
         return v
 
